@@ -306,7 +306,8 @@ theorem kcentersFitFull_spec {nClusters nInit maxIter : Int} {bipartite : Bool} 
     {k : KFitted} {calls : Nat}
     (h : kcentersFitFull nClusters nInit maxIter bipartite nRow nCol pos chooseOf classify idxMax = .ok (k, calls))
     (hch : ∀ i, ChoiceOK (chooseOf i))
-    (hcl : ∀ i centers, (classify i centers).length = (if bipartite then nRow + nCol else nRow) ∧
+    (hcl : ∀ i centers, centers.length = nClusters.toNat → centers.Nodup →
+      (classify i centers).length = (if bipartite then nRow + nCol else nRow) ∧
       ∀ l ∈ classify i centers, l < nClusters.toNat) :
     KCentersOK bipartite nRow nCol pos nClusters.toNat (allLabelsK k) k.centers ∧
     (bipartite = true → CentersSplitOK nRow pos k.centers k.centersRow k.centersCol) ∧
@@ -353,7 +354,8 @@ theorem kcentersFitFull_spec {nClusters nInit maxIter : Int} {bipartite : Bool} 
           rw [hmask] at hmask'; cases hmask'
           obtain ⟨a, ha, rfl⟩ := List.mem_map.mp hr
           obtain ⟨i, _, rfl⟩ := List.mem_map.mp ha
-          exact ⟨⟨chooseOf i, hch i, rfl⟩, (hcl i _).1, (hcl i _).2⟩)
+          have hic := initCenters_spec (hch i) hn
+          exact ⟨⟨chooseOf i, hch i, rfl⟩, (hcl i _ hic.1 hic.2.1).1, (hcl i _ hic.1 hic.2.1).2⟩)
         refine ⟨hspec.1, hspec.2, hm, ?_⟩
         rw [← hcalls, foldl_add_const _ attemptCalls 1]
         · simp
@@ -369,5 +371,119 @@ theorem kcentersFitFull_spec {nClusters nInit maxIter : Int} {bipartite : Bool} 
         exact ⟨_, List.mem_map.mpr ⟨0, List.mem_range.mpr hpos, rfl⟩, rfl⟩
       rw [hany] at h
       simp at h
+
+/-! ### the read-out of the classifier -/
+
+theorem mem_seedLabels_lt {centers : List Nat} {l : Nat} (h : l ∈ seedLabels centers) : l < centers.length :=
+  List.mem_range.mp (List.mem_filter.mp h).1
+
+/-- distinct centres carry the labels `0, …, k-1` -/
+theorem seedLabels_of_nodup {centers : List Nat} (hnd : centers.Nodup) :
+    seedLabels centers = List.range centers.length := by
+  unfold seedLabels
+  rw [List.filter_eq_self]
+  intro t ht
+  have ht' := List.mem_range.mp ht
+  simp only [Bool.not_eq_eq_eq_not, Bool.not_true, List.contains_eq_mem, decide_eq_false_iff_not]
+  intro hmem
+  rw [List.getD_eq_getElem?_getD, List.getElem?_eq_getElem ht', Option.getD_some] at hmem
+  obtain ⟨j, hj, e⟩ := List.getElem_of_mem hmem
+  rw [List.getElem_drop] at e
+  have hj' : t + 1 + j < centers.length := by simp at hj; omega
+  have := (List.Nodup.getElem_inj_iff hnd (hi := hj') (hj := ht')).mp e
+  omega
+
+/-- ★ the labels read out of the scores are below the number of centres, and there is one per row of the scores -/
+theorem rankReadout_spec {centers : List Nat} {scores : List (List Rat)} {l : List Nat}
+    (h : rankReadout centers scores = .ok l) :
+    l.length = scores.length ∧ ∀ x ∈ l, x < centers.length := by
+  unfold rankReadout at h
+  split at h
+  · cases h
+  rename_i hlen
+  cases h
+  refine ⟨by simp, ?_⟩
+  intro x hx
+  obtain ⟨row, _, rfl⟩ := List.mem_map.mp hx
+  have hpos : 0 < centers.length := by
+    have : ∀ y ∈ seedLabels centers, y < centers.length := fun y hy => mem_seedLabels_lt hy
+    cases hs : seedLabels centers with
+    | nil => rw [hs] at hlen; simp at hlen
+    | cons y ys => have := this y (by rw [hs]; simp); omega
+  by_cases hi : argmaxFirst row < (seedLabels centers).length
+  · rw [List.getD_eq_getElem?_getD, List.getElem?_eq_getElem hi, Option.getD_some]
+    exact mem_seedLabels_lt (List.getElem_mem hi)
+  · rw [List.getD_eq_getElem?_getD, List.getElem?_eq_none (Nat.le_of_not_lt hi)]
+    exact hpos
+
+theorem classifyOf_spec {scores : Nat → List Nat → List (List Rat)} {i : Nat} {centers : List Nat}
+    (hk : 2 ≤ centers.length) (hnd : centers.Nodup) :
+    (classifyOf scores i centers).length = (scores i centers).length ∧
+    ∀ x ∈ classifyOf scores i centers, x < centers.length := by
+  unfold classifyOf
+  have hs : ¬ (seedLabels centers).length < 2 := by rw [seedLabels_of_nodup hnd]; simp; omega
+  cases hr : rankReadout centers (scores i centers) with
+  | error e =>
+    unfold rankReadout at hr
+    rw [if_neg hs] at hr; cases hr
+  | ok l => exact rankReadout_spec hr
+
+/-- ★★ `KCenters.fit` with the assignment modelled (no assumption on the labels): if it returns, then for any random
+    choices and any score matrices with one row per node of the adjacency, *every* clause of C05 about k-centers
+    holds — one label per node, labels below `n_clusters`, `n_clusters` distinct admissible centres split by side. -/
+theorem kcentersFitScores_spec {nClusters nInit maxIter : Int} {bipartite : Bool} {nRow nCol : Nat} {pos : CenterPos}
+    {chooseOf : Nat → Nat → List Nat → Nat} {scores : Nat → List Nat → List (List Rat)} {idxMax : Nat}
+    {k : KFitted} {calls : Nat}
+    (h : kcentersFitScores nClusters nInit maxIter bipartite nRow nCol pos chooseOf scores idxMax = .ok (k, calls))
+    (hch : ∀ i, ChoiceOK (chooseOf i))
+    (hshape : ∀ i centers, (scores i centers).length = (if bipartite then nRow + nCol else nRow)) :
+    KCentersOK bipartite nRow nCol pos nClusters.toNat (allLabelsK k) k.centers ∧
+    (bipartite = true → CentersSplitOK nRow pos k.centers k.centersRow k.centersCol) ∧
+    1 ≤ maxIter ∧ calls = nInit.toNat := by
+  unfold kcentersFitScores at h
+  cases hchk : kcentersChecks nClusters nInit bipartite nRow nCol pos with
+  | error e => rw [hchk] at h; cases h
+  | ok mask =>
+    rw [hchk] at h
+    obtain ⟨hnc, _, _, _⟩ := kcentersChecks_ok hchk
+    simp only at h
+    split at h
+    · cases h
+    apply kcentersFitFull_spec h hch
+    intro i centers hlen hnd
+    have hk : 2 ≤ centers.length := by omega
+    have := classifyOf_spec (scores := scores) (i := i) hk hnd
+    exact ⟨this.1.trans (hshape i centers), fun l hl => hlen ▸ this.2 l hl⟩
+
+/-- ★★ the same from the shape of the input: `get_adjacency` routing is part of the model -/
+theorem kcentersEstimator_spec {nClusters nInit maxIter : Int} {directed forceBipartite : Bool} {nRow nCol nnz : Nat}
+    {pos : CenterPos} {chooseOf : Nat → Nat → List Nat → Nat} {scores : Nat → List Nat → List (List Rat)}
+    {idxMax : Nat} {k : KFitted} {calls : Nat}
+    (h : kcentersEstimator nClusters nInit maxIter directed forceBipartite nRow nCol nnz pos chooseOf scores idxMax
+      = .ok (k, calls))
+    (hch : ∀ i, ChoiceOK (chooseOf i))
+    (hshape : ∀ i centers, (scores i centers).length =
+      (if (forceBipartite || nRow != nCol) = true then nRow + nCol else nRow)) :
+    KCentersOK (forceBipartite || nRow != nCol) nRow nCol pos nClusters.toNat (allLabelsK k) k.centers ∧
+    ((forceBipartite || nRow != nCol) = true → CentersSplitOK nRow pos k.centers k.centersRow k.centersCol) ∧
+    1 ≤ maxIter ∧ calls = nInit.toNat ∧ 0 < nnz ∧ (directed = true → nRow = nCol) := by
+  unfold kcentersEstimator at h
+  split at h
+  · cases h
+  split at h
+  · cases h
+  split at h
+  · cases h
+  rename_i hdir
+  by_cases hz : (nnz == 0) = true
+  · simp [routeInput, hz] at h
+  · have hz' : (nnz == 0) = false := by simpa using hz
+    simp only [routeInput, hz', Bool.false_eq_true, if_false] at h
+    have := kcentersFitScores_spec h hch hshape
+    refine ⟨this.1, this.2.1, this.2.2.1, this.2.2.2, ?_, ?_⟩
+    · simp at hz'; omega
+    · intro hd
+      simp [hd] at hdir
+      exact hdir
 
 end SkNet.Clustering
